@@ -12,4 +12,24 @@ CLAIMED = {
         'depending on the ring count). Flow areas > 0 is a validity precondition.',
    technique='contract-based deductive verification (proxy execution of the real function + exact normaliser / sign certificates / z3)'),
 }
+CLAIMED['C01'] = dict(category='proof',
+   text='Energy identities of the real kernels are proved for ALL real temperatures, powers, flows, film coefficients, '
+        'properties and (through the geometry contract) dimensions: pin-bundle interior kernel (mass-flow weighted enthalpy '
+        'rise = pin + coolant heating + wall heat, wall heat being the same boundary flux C11 proves for the wall; '
+        'conduction, mixing and swirl cancel), flowing bypass kernel, single-node and six-node kernels, the tallies, '
+        'mass-flow weights, and mixed-mean carry-over across region changes (with and without bypass gaps).',
+   note=_ASSUME + 'Proved per enumerated configuration (ring counts 2,3 quick / 2-6 thorough, 1-3 ducts, low-flow '
+        'approximation on/off, both wire directions, power components present/absent). Geometry enters through its '
+        'contract; its facts are re-proved as callee obligations in every scenario. Not decided: first-order shrinkage of '
+        'the property-lag residual with the step size.',
+   technique='contract-based deductive verification (proxy execution of the real kernels + exact affine/rational normaliser)')
+CLAIMED['C08'] = dict(category='proof',
+   text='calculate_geometry is proved, with the ring count a symbolic integer and all dimensions real, to tile the inner '
+        'hexagon (flow areas + pins + wires), every duct and bypass annulus and the perimeters, and to satisfy every '
+        'relation its callers assume. Topology (buildable, symmetric adjacency, neighbour counts, duct/bypass rings, pin '
+        'fractions summing to one, inverse incidence, centroid distances, six-fold symmetry, independence of dimensions) is '
+        'checked by run-time contracts on the real constructors, exhaustively for ring counts 2..20 x 1..3 ducts.',
+   note=_ASSUME + 'The topology half is a BOUNDED stand-in (exhaustive over the range the property states, not a proof '
+        'for all ring counts); pi is an uninterpreted constant.',
+   technique='contract-based deductive verification for geometry (symbolic ring count); bounded run-time contracts for integer topology')
 NOT_APPLICABLE = {f'C{i:02d}': 'check not built yet in this round (see DESIGN.md section 12 build order)' for i in range(1, 21)}
